@@ -277,6 +277,7 @@ func runC13(cs c13Case) (cr caseResult) {
 	var reply []byte
 	done := false
 	pong := ""
+	served := false
 	s := verifrt.NewSched(nil)
 	s.Horizon = 3000000
 	s.Run(func() {
@@ -294,7 +295,9 @@ func runC13(cs c13Case) (cr caseResult) {
 		})
 		verifrt.AwaitQuiescence()
 		pong = string(other.Do("PING"))
-		other.Do("GET", "ks")
+		// ... and a command that needs the database the first connection has just used
+		other.Do("SET", "probe", "1")
+		served = string(other.Do("GET", "probe")) == "$1\r\n1\r\n"
 	})
 	viol := func(sig, detail string) caseResult {
 		return caseResult{Status: "violation", Sig: sig + "|" + c13Class(cs), Detail: name + ": " + detail, Trace: cs.args, Units: 1}
@@ -311,6 +314,9 @@ func runC13(cs c13Case) (cr caseResult) {
 	}
 	if pong != "+PONG\r\n" {
 		return viol("other-client-not-served", fmt.Sprintf("a second connection's PING answered %q afterwards", pong))
+	}
+	if !served {
+		return viol("other-client-stalled", fmt.Sprintf("afterwards a second connection's SET/GET on the same database does not complete (terminal %s): the command left the database locked", s.Term))
 	}
 	if !done {
 		if blockingCmds[strings.ToUpper(cs.args[0])] {
